@@ -307,6 +307,10 @@ func c20TransportChild(args []string) int {
 							// the server closes the connection after this reply: the next exchange that
 							// picks it from the pool fails on a reused connection and is retried
 							name = "ok-fin-" + name[3:]
+						} else if r.P(0.06) {
+							// a "reply" with the QR bit clear (a gateway echoing the request): whatever the
+							// transport makes of it, it owns the message exactly once
+							name = "ok-qr0-" + name[3:]
 						}
 						id := uint16(r.Intn(65536))
 						q := mkQuery(id, name, 1, 1, true)
